@@ -250,7 +250,7 @@ package prover
 //@   let msg = pack.insBytes(p.StartIndex, p.PreRoot, p.PostRoot, p.IdComms)
 //@   ensures result == nil
 //@   ensures p.InputHash == bytes.beIntFrom(keccakb.hash256(msg, n), 0, 32)
-//@   lemmas minLen_def pow256_mono beByte_lead0 beByte_tail insBytes_sel keccakb_ext
+//@   lemmas minLen_def minLen_le beByte_min_lead0 beByte_min_tail insBytes_sel keccakb_ext
 //@   loop 1
 //@     invariant 0 <= iter && iter <= len(p.IdComms)
 //@     invariant len(data) == 68 + 32 * iter
@@ -267,6 +267,6 @@ package prover
 //@   let msg = pack.delBytes(p.DeletionIndices, p.PreRoot, p.PostRoot, B)
 //@   ensures result == nil
 //@   ensures p.InputHash == bytes.beIntFrom(keccakb.hash256(msg, n), 0, 32)
-//@   lemmas minLen_def pow256_mono beByte_lead0 beByte_tail delBytes_sel keccakb_ext
+//@   lemmas minLen_def minLen_le beByte_min_lead0 beByte_min_tail delBytes_sel keccakb_ext
 //@   assert@def:hashBytes len(data) == n
 //@   assert@def:hashBytes keccakb.hash256(data, n) == keccakb.hash256(msg, n)
